@@ -49,7 +49,10 @@ Mentions(l) == Range(l.from) \cup {l.to}
 (* directed hyper-edges of a set of links: each link, and the inverse of each invertible one *)
 Edges(ls) ==
     {[id |-> l.id, dir |-> "fwd", from |-> l.from, to |-> l.to] : l \in ls} \cup
-    {[id |-> l.id, dir |-> "inv", from |-> <<l.to>>, to |-> l.from[1]] : l \in {x \in ls : x.inv}}
+    {[id |-> l.id, dir |-> "inv", from |-> <<l.to>>, to |-> l.from[1]] : l \in {x \in ls : x.inv /\ Len(x.from) = 1}} \cup
+    \* a many-to-one helper with a backward function defines every one of its inputs from its output
+    {[id |-> l.id, dir |-> (IF i = 1 THEN "inv1" ELSE "inv2"), from |-> <<l.to>>, to |-> l.from[i]] :
+         l \in {x \in ls : x.inv /\ Len(x.from) = 2}, i \in {1, 2}}
 
 Max(S) == CHOOSE x \in S : \A y \in S : y <= x
 Min(S) == CHOOSE x \in S : \A y \in S : x <= y
